@@ -239,6 +239,69 @@ func MergeReq(h *vsched.H) {
 	h.Observe(c.GotString())
 }
 
+// c08SessKey carries the session index in the context of a MergeReqTwoSessions session, so that a
+// child handler (one object, as in production) can run a separate script per session.
+type c08SessKey struct{}
+
+type c08SessChild struct{ kids []*reqChild }
+
+func (s *c08SessChild) ServeNostr(ctx context.Context, send chan<- mocrelay.ServerMsg, recv <-chan mocrelay.ClientMsg) error {
+	i, _ := ctx.Value(c08SessKey{}).(int)
+	return s.kids[i].ServeNostr(ctx, send, recv)
+}
+
+// MergeReqTwoSessions: two client sessions on ONE merge handler over two children, both using the
+// subscription id "s" at the same time. Per-subscription merge state belongs to a session: each
+// client must see exactly what it would see alone (the single-session oracle, applied per session).
+// params: m0, m1 (child modes, the same for both sessions), filt, script (0: A [REQ s], B [REQ s];
+// 1: A [REQ s], B [REQ s, CLOSE s]).
+func MergeReqTwoSessions(h *vsched.H) {
+	script := h.Param("script", 0)
+	filters := c08Filters(h.Param("filt", 0))
+	e30, e20, e10, e20b := Ev('a', '1', 1, 30), Ev('b', '1', 1, 20), Ev('c', '2', 1, 0), Ev('d', '2', 1, 20)
+	junk := Ev('e', '2', 7, 25)
+	l1, l2, l3 := Ev('f', '1', 1, 5), Ev('0', '1', 1, 40), Ev('9', '2', 1, 40)
+	trig := make(chan struct{})
+	var perSess [2][]*reqChild
+	var hs []mocrelay.Handler
+	for i := 0; i < 2; i++ {
+		sc := &c08SessChild{}
+		for sess := 0; sess < 2; sess++ {
+			k := &reqChild{h: h, idx: i, mode: h.Param(fmt.Sprintf("m%d", i), 0), trig: trig, open: map[string]bool{}, junk: junk}
+			if i == 0 {
+				k.stored, k.live = []*mocrelay.Event{e30, e20b, e10}, []*mocrelay.Event{l1, l2}
+			} else {
+				k.stored, k.live = []*mocrelay.Event{e30, e20, e20b}, []*mocrelay.Event{l1, l3}
+			}
+			if k.mode == ReqDupOfSibling {
+				k.stored = []*mocrelay.Event{e30, e10}
+			}
+			sc.kids = append(sc.kids, k)
+			perSess[sess] = append(perSess[sess], k)
+		}
+		hs = append(hs, sc)
+	}
+	merged := mocrelay.NewMergeHandler(hs...)
+	A := NewConn(h, "A", context.WithValue(context.Background(), c08SessKey{}, 0), merged)
+	B := NewConn(h, "B", context.WithValue(context.Background(), c08SessKey{}, 1), merged)
+	go A.ReadAll()
+	go B.ReadAll()
+	go A.Write(ReqMsg("s", filters...))
+	go func() {
+		if script == 1 {
+			B.Write(ReqMsg("s", filters...), CloseMsg("s"))
+		} else {
+			B.Write(ReqMsg("s", filters...))
+		}
+	}()
+	h.WaitQuiescent()
+	close(trig)
+	h.WaitQuiescent()
+	c08Oracle(h, A, perSess[0], 0, filters)
+	c08Oracle(h, B, perSess[1], script, filters)
+	h.Observe("A: " + A.GotString() + " | B: " + B.GotString())
+}
+
 func c08Oracle(h *vsched.H, c *Conn, kids []*reqChild, script int, filters []*mocrelay.ReqFilter) {
 	ctxs := func() string {
 		var sb strings.Builder
